@@ -24,6 +24,8 @@ func Run(ctx *core.Ctx) {
 		"failing renders are compared on error/no-error only")
 	Families(ctx)
 	RecursionFamily(ctx)
+	SwitchValuesFamily(ctx)
+	ChainFamily(ctx)
 	LoopHelperFamily(ctx)
 	RandomTraces(ctx, ctx.Pick(1500, 60000))
 }
